@@ -3,6 +3,7 @@ import glob, os
 from ..common import CORPUS
 
 NTYPES = 46
+CANCELLING_FILTERS = False      # switched on once the model has them (Reg.filtCancels)
 
 def fnv1a(s):
     h = 2166136261
@@ -64,7 +65,10 @@ class Gen:
         r = self.rng
         if r.random() < 0.35:
             m = r.choice([2, 3])
-            return "%d:%d" % (m, r.randrange(m))
+            # "m:r:c": the filter also cancels the context of the publish it is evaluated for (user code running between
+            # the cancellation check and the handler start)
+            c = ":c" if CANCELLING_FILTERS and r.random() < (0.35 if self.focus in ("C08", "C04") else 0.1) else ""
+            return "%d:%d%s" % (m, r.randrange(m), c)
         return "-"
 
     def sub(self, in_body=False, ty=None):
